@@ -202,7 +202,7 @@ func (k *concretiser) value(v Val) string {
 		}
 		var elems []string
 		for i := int64(0); i < n; i++ {
-			ev := c.loadElem(st, u.Elem(), v.L[0], add(v.L[1], num(i)))
+			ev := c.loadElem(st, u.Elem(), v.L[0], slIdx(v.L[1], num(i)))
 			elems = append(elems, k.value(ev))
 		}
 		return k.typeName(v.Typ) + "{" + strings.Join(elems, ", ") + "}"
